@@ -78,9 +78,10 @@ Fixpoint map_get (m : list (nat * nat * qentry)) (k id : nat) : option (mentry Q
       else map_get t k id
   end.
 
-Definition py_eval_Q (m : list (nat * nat * qentry)) (x : list Q) (e : expr) (c : list nat) : option Q :=
+Definition py_eval_Q (cfix efix : bool) (m : list (nat * nat * qentry)) (x : list Q) (e : expr) (c : list nat)
+  : option Q :=
   option_map this
-    (py_call QcA (map_get m) (map Q2Qc x) 0 q_pdiv q_ppow q_none2 q_pmath q_pbessel (fun b => b) e c).
+    (py_call QcA (map_get m) (map Q2Qc x) 0 q_pdiv q_ppow q_none2 q_pmath q_pbessel (fun b => b) cfix efix e c).
 
 (* ---------------------------------------------------------------------------------------------- *)
 (* the hypotheses of the soundness theorem that concern the algebra and the primitives hold here   *)
@@ -113,6 +114,7 @@ Proof.
 Qed.
 
 Section Inst.
+Variables cfix efix : bool.
 Variable m : list (nat * nat * qentry).
 Variable x : list Q.
 Variable tsh : nat -> nat -> list nat.
@@ -135,14 +137,14 @@ Hypothesis H_sc_sh : forall id, length (tsh KIND_SC id) = 1%nat.
 
 (* the closed instance of the main theorem for the executable interpreter of the generated cases *)
 Theorem C24_eval_sound_Q e c q :
-  wf tsh e = true -> length c = length (shape e) -> py_eval_Q m x e c = Some q ->
+  wf tsh e = true -> length c = length (shape e) -> py_eval_Q cfix efix m x e c = Some q ->
   exists v : Qc, this v = q /\ v = @den QcA env D DX 0 None (fun _ => 0%nat) e c.
 Proof.
   intros W L E. unfold py_eval_Q in E.
-  destruct (py_call QcA MP XP 0 q_pdiv q_ppow q_none2 q_pmath q_pbessel (fun b => b) e c) as [v|] eqn:EV;
+  destruct (py_call QcA MP XP 0 q_pdiv q_ppow q_none2 q_pmath q_pbessel (fun b => b) cfix efix e c) as [v|] eqn:EV;
     [|discriminate E].
   cbn in E. inversion E; subst. exists v. split; [reflexivity|].
-  eapply (C24_call_sound QcA MP XP 0 q_pdiv q_ppow q_none2 q_pmath q_pbessel (fun b => b) tsh env D DX);
+  eapply (C24_call_sound QcA MP XP 0 q_pdiv q_ppow q_none2 q_pmath q_pbessel (fun b => b) cfix efix tsh env D DX);
     eauto using q_pdiv_ok, q_ppow_ok, q_pow0, q_powp; try discriminate; try reflexivity.
 Qed.
 End Inst.
@@ -162,33 +164,44 @@ Definition cond_w : expr :=
    is v[0] = 1/2 -- and the interpreter (like the code: TypeError) fails *)
 Theorem C24_conditional_refuted :
   exists e c, wf tsh_w e = true /\ length c = length (shape e) /\
-    py_eval_Q map_w [] e c = None /\
+    py_eval_Q false false map_w [] e c = None /\
     (* the same condition and the same branch evaluate on their own: *)
-    py_eval_Q map_w [] (Conditional (Cmp CLT (Term 0 0 []) (Term 0 1 [])) (IntV 1) (IntV 0)) [] = Some 1%Q /\
-    py_eval_Q map_w [] (Term 0 2 [2%nat]) c = Some (1#2)%Q.
+    py_eval_Q false false map_w [] (Conditional (Cmp CLT (Term 0 0 []) (Term 0 1 [])) (IntV 1) (IntV 0)) [] = Some 1%Q /\
+    py_eval_Q false false map_w [] (Term 0 2 [2%nat]) c = Some (1#2)%Q.
 Proof. exists cond_w, [0%nat]. vm_compute. repeat split; reflexivity. Qed.
 
 (* indexing the conditional does not help: Indexed passes the component on *)
 Theorem C24_conditional_indexed_refuted :
   wf tsh_w (Indexed cond_w [Fixed 0]) = true /\
-  py_eval_Q map_w [] (Indexed cond_w [Fixed 0]) [] = None.
+  py_eval_Q false false map_w [] (Indexed cond_w [Fixed 0]) [] = None.
 Proof. vm_compute. split; reflexivity. Qed.
 
 (* what does hold: a conditional evaluated at the empty component (scalar branches) evaluates its
    condition at the empty component and then exactly the selected branch *)
-Theorem C24_conditional_partial (A : ualg) mapping xpt ki pdiv ppow patan2 pmath pbessel bval iv cnd t f :
-  py_eval A mapping xpt ki pdiv ppow patan2 pmath pbessel bval iv (Conditional cnd t f) [] [] =
-  match py_evalc A mapping xpt ki pdiv ppow patan2 pmath pbessel bval iv cnd [] with
-  | Some true => py_eval A mapping xpt ki pdiv ppow patan2 pmath pbessel bval iv t [] []
-  | Some false => py_eval A mapping xpt ki pdiv ppow patan2 pmath pbessel bval iv f [] []
+Theorem C24_conditional_partial (A : ualg) mapping xpt ki pdiv ppow patan2 pmath pbessel bval cfix efix iv cnd t f :
+  py_eval A mapping xpt ki pdiv ppow patan2 pmath pbessel bval cfix efix iv (Conditional cnd t f) [] [] =
+  match py_evalc A mapping xpt ki pdiv ppow patan2 pmath pbessel bval cfix efix iv cnd [] with
+  | Some true => py_eval A mapping xpt ki pdiv ppow patan2 pmath pbessel bval cfix efix iv t [] []
+  | Some false => py_eval A mapping xpt ki pdiv ppow patan2 pmath pbessel bval cfix efix iv f [] []
   | None => None
   end.
-Proof. reflexivity. Qed.
+Proof. destruct cfix; reflexivity. Qed.
+
+(* with the repaired bodies (cfix / efix = true) the same witnesses evaluate to the mathematical value *)
+Theorem C24_conditional_repaired :
+  py_eval_Q true false map_w [] cond_w [0%nat] = Some (1#2)%Q /\
+  py_eval_Q true false map_w [] (Indexed cond_w [Fixed 0]) [] = Some (1#2)%Q.
+Proof. vm_compute. split; reflexivity. Qed.
+Theorem C24_permsym_repaired :
+  py_eval_Q false true map_w [] (PermSym 3) [0; 1; 2]%nat = Some 1%Q /\
+  py_eval_Q false true map_w [] (PermSym 3) [0; 2; 1]%nat = Some (-1)%Q /\
+  py_eval_Q false true map_w [] (PermSym 3) [0; 2; 2]%nat = Some 0%Q.
+Proof. vm_compute. repeat split; reflexivity. Qed.
 
 (* PermutationSymbol.evaluate returns a UFL object: no expression that reaches it evaluates to a
    number, e.g. eps[0,1,2] *)
 Theorem C24_permsym_refuted :
-  exists e c, wf tsh_w e = true /\ length c = length (shape e) /\ py_eval_Q map_w [] e c = None.
+  exists e c, wf tsh_w e = true /\ length c = length (shape e) /\ py_eval_Q false false map_w [] e c = None.
 Proof. exists (PermSym 3), [0; 1; 2]%nat. vm_compute. repeat split; reflexivity. Qed.
 
 (* rule table: which `evaluate` rule the model assumes for every node class (compared with the table
